@@ -204,7 +204,9 @@ def test_alphabet():
     quick = C.statements("quick")
     check("quick is a subset", all(s in sts for s in quick), True)
     check("quick has every kind", {s["kind"] for s in quick}, {s["kind"] for s in sts})
-    check("quick has every class", {s["cls"] for s in quick}, {s["cls"] for s in sts})
+    check("quick has every class of the hand-written statements", {s["cls"] for s in quick if s["kind"] != "typed"}, {s["cls"] for s in sts if s["kind"] != "typed"})
+    check("quick has every form of the product", {s["cls"].split(":")[1] for s in quick if s["kind"] == "typed"}, {f[0] for f in C.FORMS})
+    check("quick has a scale-0 integer synonym, a NUMBER(p,0), a scaled NUMBER, a float", {"INT", "NUMBER(10,0)", "NUMBER(10,2)", "FLOAT"} <= set(C.QUICK_TYPES), True)
     check("at least 250 hand-written statements", len([s for s in sts if s["kind"] != "typed"]) >= 250, True)
     kinds = {s["kind"] for s in sts}
     for k in ("query", "typed", "seeded", "dml", "ddl", "use", "tx", "intx", "var", "show", "nop", "param"):
